@@ -7,7 +7,9 @@ Every theorem holds for both big-integer back ends (`be`) and an arbitrary hash 
 `C.WF` = output lengths 20/20/16 where lengths matter). Numbers are natural numbers; the bytes on the
 wire are `leN 32 _` (32 bytes little endian).
 -/
+import Mathlib.Data.Nat.Prime.Basic
 import WowSrp.Lemmas.Srp
+import WowSrp.Props.C04
 namespace WowSrp
 
 /-- **constants**: N is one number in both byte orders, it is the prime 0x894B…9BB7 of the Spec,
@@ -251,5 +253,97 @@ theorem C03_api (C : Crypto) (hC : C.WF) (hx : C.XorHashOk) (be : Backend) :
     exact h
   · intro c
     rw [C03_api_client_key]; exact if_pos rfl
+
+/-! ### announced PRIME groups: the side condition `g^a mod N' ≠ 0` discharged
+
+`C03_api_client` takes `hA : g ^ a % N' ≠ 0`. The property quantifies over PRIME announced moduli; for
+those the side condition is a statement about `g` alone. -/
+
+/-- for a prime modulus that does not divide the generator, no power of the generator is `≡ 0`:
+    `g^a mod N' ≠ 0` for EVERY private key `a` (a prime dividing a power divides the base) -/
+theorem C03_hA_of_prime {N' g : Nat} (a : Nat) (hp : Nat.Prime N') (hg : ¬ N' ∣ g) :
+    g ^ a % N' ≠ 0 :=
+  fun h => hg (hp.dvd_of_dvd_pow (Nat.dvd_of_mod_eq_zero h))
+
+/-- … exactly: for a prime modulus, `g^a mod N' = 0` iff the prime divides the generator and the
+    private key is not zero (`g^0 = 1`) -/
+theorem C03_hA_iff_of_prime {N' g : Nat} (a : Nat) (hp : Nat.Prime N') :
+    g ^ a % N' = 0 ↔ (N' ∣ g ∧ a ≠ 0) := by
+  constructor
+  · intro h
+    refine ⟨hp.dvd_of_dvd_pow (Nat.dvd_of_mod_eq_zero h), fun ha => ?_⟩
+    subst ha
+    rw [pow_zero, Nat.mod_eq_of_lt hp.one_lt] at h
+    exact one_ne_zero h
+  · rintro ⟨hd, ha⟩
+    exact Nat.mod_eq_zero_of_dvd (dvd_trans hd (dvd_pow_self g ha))
+
+/-- the property's generators: a generator `1 ≤ g < N'` (in particular every `g` in `2..255` against any
+    prime modulus above 255 — every prime of more than one byte) is not divisible by `N'` -/
+theorem C03_not_dvd_of_lt {N' g : Nat} (hg0 : 0 < g) (hlt : g < N') : ¬ N' ∣ g :=
+  Nat.not_dvd_of_pos_of_lt hg0 hlt
+
+/-- **API, client, any announced PRIME group** (`C03_api_client` with `hA` discharged): for EVERY
+    announced 32-byte PRIME modulus N' and EVERY generator g that N' does not divide, every account,
+    server key `B`, salt and drawn private key `a`, `SrpClientChallenge::new` does not panic and exposes
+    A = g^a mod N' (32 bytes LE), K = SHA_Interleave(LE32(S)), S = (B − 3·g^x)^(a+u·x) mod N',
+    u = H(A|B), x = H(salt|H(U:P)), M1 = H(H(N') xor H(g) | H(U) | salt | A | B | K) -/
+theorem C03_api_client_prime (C : Crypto) (hC : C.WF) (be : Backend) (u p : NStr) (g : Nat)
+    (nLE B salt a : Bytes) (hl : nLE.length = 32) (hB : B.length = 32)
+    (hprime : Nat.Prime (ofLE nLE) ∧ ¬ ofLE nLE ∣ g) :
+    let A := g ^ ofLE a % ofLE nLE
+    let x := Spec.x C u.asRef p.asRef salt
+    let K := Spec.K C (Spec.Sclient (ofLE B) x (ofLE a) (Spec.u C A (ofLE B)) g (ofLE nLE))
+    SrpClientChallenge.new C be u p g nLE B salt a =
+      .ok ⟨u, Spec.M1 C nLE g u.asRef salt (leN 32 A) B K, leN 32 A, K⟩ :=
+  C03_api_client C hC be u p g nLE B salt a hprime.1.pos hl hB (C03_hA_of_prime _ hprime.1 hprime.2)
+
+/-- the same with the property's generator range: `1 ≤ g < N'` (e.g. `g ∈ 2..255`, `N'` a prime of more
+    than one byte) -/
+theorem C03_api_client_prime_small_g (C : Crypto) (hC : C.WF) (be : Backend) (u p : NStr) (g : Nat)
+    (nLE B salt a : Bytes) (hl : nLE.length = 32) (hB : B.length = 32)
+    (hprime : Nat.Prime (ofLE nLE)) (hg0 : 0 < g) (hg : g < ofLE nLE) :
+    let A := g ^ ofLE a % ofLE nLE
+    let x := Spec.x C u.asRef p.asRef salt
+    let K := Spec.K C (Spec.Sclient (ofLE B) x (ofLE a) (Spec.u C A (ofLE B)) g (ofLE nLE))
+    SrpClientChallenge.new C be u p g nLE B salt a =
+      .ok ⟨u, Spec.M1 C nLE g u.asRef salt (leN 32 A) B K, leN 32 A, K⟩ :=
+  C03_api_client_prime C hC be u p g nLE B salt a hl hB ⟨hprime, C03_not_dvd_of_lt hg0 hg⟩
+
+/-- **the complementary case** (re-export of `C04_client_self`, `Props/C04.lean`): an announced prime
+    that DIVIDES the generator makes `SrpClientChallenge::new` hit the documented panic
+    "Invalid public key generated for client" for every non-zero private-key draw (`A = g^a mod N' = 0`),
+    and only then: for a prime modulus the constructor panics iff `N' ∣ g ∧ a ≠ 0`. So the hypothesis
+    `¬ N' ∣ g` of `C03_api_client_prime` is exactly what separates byte-exact output from the panic. -/
+theorem C03_api_client_prime_dvd_panics (C : Crypto) (hC : C.WF) (be : Backend) (u p : NStr) (g : Nat)
+    (nLE B salt a : Bytes) (hl : nLE.length = 32) (hprime : Nat.Prime (ofLE nLE)) :
+    ((∃ site, SrpClientChallenge.new C be u p g nLE B salt a = .panic site) ↔
+      (ofLE nLE ∣ g ∧ ofLE a ≠ 0)) ∧
+    (ofLE nLE ∣ g → ofLE a ≠ 0 →
+      SrpClientChallenge.new C be u p g nLE B salt a =
+        .panic "client.rs:190 Invalid public key generated for client") := by
+  obtain ⟨h1, h2, _⟩ := C04_client_self C hC be u p g nLE B salt a hl hprime.pos
+  exact ⟨h1.trans (C03_hA_iff_of_prime _ hprime), fun hd ha =>
+    h2 ((C03_hA_iff_of_prime _ hprime).2 ⟨hd, ha⟩)⟩
+
+/-- non-vacuity: the built-in prime with `g = 7`, and the announced prime `2^255 − 19` with `g = 5`,
+    meet the hypotheses of `C03_api_client_prime_small_g`; the prime 7 (as a 32-byte modulus) divides the
+    generator 7, the complementary case -/
+example : Nat.Prime (ofLE Gen.largeSafePrimeLE) ∧ Gen.largeSafePrimeLE.length = 32 ∧
+    0 < 7 ∧ 7 < ofLE Gen.largeSafePrimeLE :=
+  ⟨nBig_prime, by decide, by decide, by decide +kernel⟩
+example : Nat.Prime (ofLE (7 :: List.replicate 31 0)) ∧ ofLE (7 :: List.replicate 31 0) ∣ 7 ∧
+    ofLE [1] ≠ 0 := by
+  refine ⟨?_, ?_, by decide⟩
+  · have : ofLE (7 :: List.replicate 31 0) = 7 := by decide
+    rw [this]; norm_num
+  · decide
+
+#print axioms C03_hA_of_prime
+#print axioms C03_hA_iff_of_prime
+#print axioms C03_not_dvd_of_lt
+#print axioms C03_api_client_prime
+#print axioms C03_api_client_prime_small_g
+#print axioms C03_api_client_prime_dvd_panics
 
 end WowSrp
